@@ -11,7 +11,7 @@
 (*   mechanism: the library walks the union in some iteration order (here: *)
 (*              p's insertion order, then q's new outcomes), builds the    *)
 (*              value vectors and the kernel matrix in THAT order          *)
-(* TLC checks for an arbitrary rational kernel table (K(d) = 1/(1+d)) that *)
+(* TLC checks for an arbitrary rational kernel table K(|x-y|) that        *)
 (* mechanism = meaning whatever the order, symmetry and zero on the        *)
 (* diagonal; for the exact Gaussian kernel with exp(-1/(2 sigma)) = 1/2    *)
 (* (K(d) = 2^-(d^2), representable for W <= 2) also non-negativity.        *)
@@ -35,7 +35,7 @@ Tri(n) == (n * (n + 1)) \div 2
 PP(x) == RNorm(RawP(x), Tri(Len(p)))
 QQ(x) == RNorm(RawQ(x), Tri(Len(q)))
 
-KAny(d) == <<1, 1 + d>>
+KAny(d) == <<1 + ((d * d) % 7), 8>>          \* an arbitrary table of |x-y| with small denominators (TLC integers are 32-bit)
 KGauss(d) == <<1, 2 ^ (d * d)>>
 
 \* ---- meaning -------------------------------------------------------------------------------------------------
